@@ -89,6 +89,15 @@ FieldLeaves(f) ==
 
 NonEmptyLeaves(f) == {x \in FieldLeaves(f) : x.t # <<>>}
 
+(* non-empty leaves of a segment as a flat sequence of texts, in document order (C03) *)
+ConcatAll(ss) == LET RECURSIVE go(_, _)
+                     go(i, acc) == IF i > Len(ss) THEN acc ELSE go(i + 1, acc \o ss[i])
+                 IN go(1, <<>>)
+LeafSeqComp(c) == SelectSeq(c, LAMBDA t : t # <<>>)
+LeafSeqRep(r) == ConcatAll([i \in 1..Len(r) |-> LeafSeqComp(r[i])])
+LeafSeqField(f) == ConcatAll([i \in 1..Len(f) |-> LeafSeqRep(f[i])])
+LeafSeq(seg) == ConcatAll([i \in 1..Len(seg.fields) |-> LeafSeqField(seg.fields[i])])
+
 (* ---- position law (C02): the only non-empty leaf of segment text t sits at field i, rep 1, comp j, sub k ---- *)
 OnlyLeafAt(seg, i, j, k, val) ==
   /\ i <= Len(seg.fields)
